@@ -1066,7 +1066,7 @@ def run(ck: common.Check):
     cases += cd
     ck.extra["corrupt_zarr_documents(exploration, no model)"] = len(cd)
     ck.extra["single_fault_catalogue"] = len(cat)
-    npairs = 800 if ck.quick else 16000
+    npairs = 450 if ck.quick else 16000
     cases += fault_pairs(ck.rng, npairs)
     nconf = 200 if ck.quick else 3000
     cases += [("random-conformant", random_conformant(ck.rng)) for _ in range(nconf)]
